@@ -67,7 +67,9 @@ func TestC16_P_WriteOrderAndFaults(t *testing.T) {
 			n := rapid.SampledFrom([]int{0, 1, cs, cs + 1, w * cs, w*cs + 1, w * w * cs, w*w*cs + 1, 60}).Draw(t, "len")
 			content := fillContent(t, n, cs)
 			b = c16Build{fmt.Sprintf("file len=%d cs=%d w=%d", n, cs, w), func(st *Store) (l datamodel.Link, sz uint64, err error) {
-				withWidth(w, func() { l, sz, err = builder.BuildUnixFSFile(bytes.NewReader(content), fmt.Sprintf("size-%d", cs), st.LinkSystem()) })
+				withWidth(w, func() {
+					l, sz, err = builder.BuildUnixFSFile(bytes.NewReader(content), fmt.Sprintf("size-%d", cs), st.LinkSystem())
+				})
 				return
 			}}
 		case "symlink":
@@ -103,7 +105,9 @@ func TestC16_P_WriteOrderAndFaults(t *testing.T) {
 		}
 		body := func(fsPath string) {
 			if kind == "recursive" {
-				b.run = func(st *Store) (datamodel.Link, uint64, error) { return builder.BuildUnixFSRecursive(fsPath, st.LinkSystem()) }
+				b.run = func(st *Store) (datamodel.Link, uint64, error) {
+					return builder.BuildUnixFSRecursive(fsPath, st.LinkSystem())
+				}
 			}
 			// fault-free run
 			clean := NewStore()
@@ -214,4 +218,72 @@ func TestC16_R_F8_LinkWithError(t *testing.T) {
 			t.Fatalf("C16 F8: empty dir, %s fails: link=%v err=%v", stage, l, err)
 		}
 	}
+}
+
+// TestC16_P_AutoShardedFaults: a directory large enough to be auto-sharded (estimate above 256 KiB, ~1150 entries) built through
+// BuildUnixFSDirectory and the recursive importer's code path, with every single write fault. A fallback from the sharded
+// to the plain layout (or anything else that retries) must not turn a failed write into a reported success.
+func TestC16_P_AutoShardedFaults(t *testing.T) {
+	ev := newEvid(t, "case = ~1150-entry directory whose size estimate is above the auto-shard threshold, built with BuildUnixFSDirectory; fault-free run, then EVERY (k-th write open) x (open | commit) fault (write faults sampled every 7th k); oracle as TestC16_P_WriteOrderAndFaults; every faulted run is non-trivial; distinct by (salt, stage, position class)")
+	rapid.Check(t, func(t *rapid.T) {
+		salt := rapid.IntRange(0, 9999).Draw(t, "salt")
+		es := c02ThresholdPlus(salt, rapid.IntRange(1, 3).Draw(t, "extra"))
+		ext := map[cid.Cid]bool{}
+		for _, e := range es {
+			ext[e.Cid] = true
+		}
+		entries := pbEntries(es)
+		run := func(st *Store) (datamodel.Link, uint64, error) { return builder.BuildUnixFSDirectory(entries, st.LinkSystem()) }
+		clean := NewStore()
+		link, _, err := run(clean)
+		if err != nil || link == nil {
+			t.Fatalf("C16 auto-sharded: fault-free build failed: %v", err)
+		}
+		produced := map[cid.Cid]bool{}
+		for c := range clean.Blocks {
+			produced[c] = true
+		}
+		if err := commitOrderOK(clean, produced); err != nil {
+			t.Fatalf("C16 auto-sharded: %v", err)
+		}
+		n := clean.Opens
+		if n < 3 {
+			t.Fatalf("harness: expected a sharded directory, got %d blocks", n)
+		}
+		for k := 1; k <= n; k++ {
+			for stage := 0; stage < 3; stage++ {
+				if stage == 1 && k%7 != 0 {
+					continue
+				}
+				st := NewStore()
+				stageName := []string{"open", "write", "commit"}[stage]
+				switch stage {
+				case 0:
+					st.FailOpenAt = k
+				case 1:
+					st.FailWriteAt = k
+				default:
+					st.FailCommitAt = k
+				}
+				var fl datamodel.Link
+				var ferr error
+				must(t, "auto-sharded build under fault", func() { fl, _, ferr = run(st) })
+				if ferr == nil {
+					t.Fatalf("C16 auto-sharded directory (%d entries, %d blocks): write #%d failing at %s: build reported success (link %v)", len(es), n, k, stageName, fl)
+				}
+				if fl != nil {
+					t.Fatalf("C16 auto-sharded directory: write #%d failing at %s: link %v returned together with error %q", k, stageName, fl, ferr)
+				}
+				if err := commitOrderOK(st, produced); err != nil {
+					t.Fatalf("C16 auto-sharded directory: write #%d failing at %s: partial store: %v", k, stageName, err)
+				}
+				pos := "interior"
+				if k == n {
+					pos = "last(root)"
+				}
+				ev.Case(fmt.Sprintf("s=%d %s@%s", salt, stageName, pos), true, "fault:"+stageName)
+			}
+		}
+		ev.Sample(map[string]any{"entries": len(es), "write_opens": n})
+	})
 }
